@@ -292,7 +292,7 @@ int OneDimensionalMeta::getQExact(int level, TypeOneDRule rule){
         case rule_gausspatterson:     return (level == 0) ? 1 : (3 * Maths::pow2(level) - 1);
         case rule_clenshawcurtis:     return (level == 0) ? 1 : (Maths::pow2(level) + 1);
         case rule_clenshawcurtis0:    return (level == 0) ? 1 : (Maths::pow2(level+1) + 1);
-        case rule_chebyshev:          return level+1;
+        case rule_chebyshev:          return (level % 2 == 0) ? level+1 : level; // level+1 points: symmetry adds one degree only for an odd number of points
         case rule_rlejadouble2:       return getNumPoints(level,rule_rlejadouble2);
         case rule_rlejadouble4:       return getNumPoints(level,rule_rlejadouble4)-1;
         case rule_fejer2:             return Maths::pow2(level+1) - 1;
